@@ -149,6 +149,290 @@ fn sync_scenario(rng: &mut StdRng, sc: usize, out: Box<dyn std::io::Write>, kv: 
     (out, lines, panics)
 }
 
+/// Fine-grained random interleaving of every environment action: announcements, proofs, all ticks,
+/// filter / blocks-proof / txs-proof answers, single block deliveries, set_scripts (all commands,
+/// empty lists, duplicates), fetch RPCs, growth, restarts, and (profile fork) a switch of the
+/// peers to a fork branch.
+fn rand_scenario(rng: &mut StdRng, sc: usize, out: Box<dyn std::io::Write>, kv: &HashMap<String, String>, profile: &str) -> (Box<dyn std::io::Write>, u64, Vec<String>) {
+    let pow = if rng.gen_bool(0.15) { "eaglesong" } else { "dummy" };
+    let main_len = rng.gen_range(6..=arg_u64(kv, "maxlen", 24) as usize);
+    let last_n = *[2u64, 3, 5, 10][..].get(rng.gen_range(0..4)).unwrap();
+    let interval = if profile == "fork" { last_n.max(3) + rng.gen_range(0..=2) } else { *[3u64, 4, 5][..].get(rng.gen_range(0..3)).unwrap() };
+    let npeers = rng.gen_range(1..=3usize);
+    let forks = if profile == "fork" { 1 } else { 0 };
+    // fork depth below, at and above last-N
+    let depth = rng.gen_range(1..=(last_n as usize + 2)).min(main_len - 1);
+    let built = build_tx_world(rng, pow, main_len, forks, depth, 3);
+    let cfg = Config { last_n, max_outbound: npeers as u32, interval, blocks_in_transit: rng.gen_range(1..=4) };
+    let leaves = built.leaves.clone();
+    let leaf = leaves[0];
+    let mut sim: Sim = new_sim(built.chain, cfg, npeers, out, &format!("{}-{}", profile, sc), vec!["peersync", "filter"]);
+    let nleaf = sim.chain.blocks[leaf].num;
+    let tips: Vec<(usize, usize)> = (0..npeers)
+        .map(|_| (sim.chain.ancestor_at(leaf, rng.gen_range((nleaf / 2).max(1)..=nleaf)).unwrap(), leaf))
+        .collect();
+    let mut env = Env::new(&sim, &tips);
+    for ep in env.peers.iter_mut() {
+        ep.server.filters_batch = rng.gen_range(1..=5);
+        ep.server.hashes_batch = rng.gen_range(2..=8);
+        ep.server.cp_batch = rng.gen_range(2..=6);
+        ep.server.v1 = rng.gen_bool(0.7);
+    }
+    sim.reset(json!({"mode": profile}));
+    let nscripts = sim.chain.scripts.len();
+    let rand_list = |rng: &mut StdRng, maxn: u64, allow_empty: bool| -> Vec<(usize, bool, u64)> {
+        let mut list = Vec::new();
+        let k = if allow_empty && rng.gen_bool(0.15) { 0 } else { rng.gen_range(1..=3) };
+        for _ in 0..k {
+            list.push((rng.gen_range(0..nscripts), rng.gen_bool(0.25), rng.gen_range(0..=maxn)));
+        }
+        if !list.is_empty() && rng.gen_bool(0.15) {
+            let mut d = list[0];
+            d.2 = rng.gen_range(0..=maxn);
+            list.push(d); // duplicate key
+        }
+        list
+    };
+    let l0 = rand_list(rng, nleaf / 2, false);
+    env.set_scripts(&mut sim, "all", &l0);
+    let steps = arg_u64(kv, "steps", 150);
+    let w_scripts = if profile == "scripts" { 8 } else { 1 };
+    let w_fetch = if profile == "fetch" { 10 } else if profile == "sync" { 3 } else { 1 };
+    let switch_at = if profile == "fork" { rng.gen_range(steps / 4..steps * 3 / 4) } else { u64::MAX };
+    let mut blocks_q: Vec<(usize, ckb_types::packed::SyncMessage)> = Vec::new();
+    let ntx = sim.chain.txs.len();
+    for step in 0..steps {
+        if step == switch_at {
+            // every peer moves to the fork branch (its tip: somewhere above the fork point)
+            let fleaf = leaves[1];
+            for ep in env.peers.iter_mut() {
+                ep.leaf = fleaf;
+                ep.server.tip = fleaf;
+            }
+            blocks_q.clear();
+        }
+        let i = rng.gen_range(0..npeers);
+        let total = 100 + w_scripts + w_fetch;
+        let r = rng.gen_range(0..total);
+        match r {
+            0..=5 => {
+                if !env.peers[i].connected {
+                    env.connect(&mut sim, i);
+                }
+            }
+            6 => {
+                if env.peers[i].connected && rng.gen_bool(0.3) {
+                    env.disconnect(&mut sim, i);
+                    blocks_q.retain(|(j, _)| *j != i);
+                }
+            }
+            7..=16 => {
+                if env.peers[i].connected {
+                    env.send_last_state(&mut sim, i);
+                    env.enforce_bans(&mut sim);
+                }
+            }
+            17..=26 => {
+                if env.peers[i].connected {
+                    env.answer_proof(&mut sim, i);
+                    env.enforce_bans(&mut sim);
+                }
+            }
+            27..=34 => env.refresh(&mut sim),
+            35..=46 => {
+                let token = rng.gen_range(0..3);
+                env.filter_tick(&mut sim, token, rng.gen_bool(0.7));
+            }
+            47..=51 => env.idle_tick(&mut sim),
+            52..=55 => env.fetch_tick(&mut sim),
+            56..=69 => {
+                if env.peers[i].connected {
+                    env.answer_filter(&mut sim, i, interval);
+                    env.enforce_bans(&mut sim);
+                }
+            }
+            70..=77 => {
+                if env.peers[i].connected {
+                    env.answer_blocks_proof(&mut sim, i);
+                    env.enforce_bans(&mut sim);
+                }
+            }
+            78..=80 => {
+                if env.peers[i].connected {
+                    env.answer_txs_proof(&mut sim, i);
+                    env.enforce_bans(&mut sim);
+                }
+            }
+            81..=84 => {
+                // turn one outstanding GetBlocks into queued single block deliveries
+                if env.peers[i].connected {
+                    let p = env.peers[i].idx;
+                    if let Some(req) = sim.take_request(p, crate::verif::sim::as_get_blocks) {
+                        let mut msgs = env.peers[i].server.blocks(&sim.chain, &req);
+                        if rng.gen_bool(0.5) {
+                            msgs.reverse();
+                        }
+                        for m in msgs {
+                            blocks_q.push((i, m));
+                        }
+                    }
+                }
+            }
+            85..=92 => {
+                if !blocks_q.is_empty() {
+                    let k = rng.gen_range(0..blocks_q.len());
+                    let (j, m) = blocks_q.remove(k);
+                    if env.peers[j].connected {
+                        env.deliver_block(&mut sim, j, m, "true");
+                    }
+                }
+            }
+            93..=95 => {
+                env.grow(&sim, i, rng.gen_range(1..=3));
+            }
+            96..=98 => sim.advance(1),
+            99 => {
+                env.restart(&mut sim);
+                blocks_q.clear();
+            }
+            x if x < 100 + w_scripts => {
+                let cmd = ["all", "partial", "delete"][rng.gen_range(0..3)];
+                let maxn = nleaf;
+                let list = rand_list(rng, maxn, true);
+                env.set_scripts(&mut sim, cmd, &list);
+            }
+            _ => {
+                match rng.gen_range(0..4) {
+                    0 | 1 => {
+                        let t = rng.gen_range(0..ntx);
+                        env.rpc_fetch_tx(&mut sim, t);
+                    }
+                    2 => {
+                        let b = rng.gen_range(0..sim.chain.blocks.len());
+                        env.rpc_fetch_header(&mut sim, b);
+                    }
+                    _ => {
+                        let t = rng.gen_range(0..ntx);
+                        env.rpc_get_tx(&mut sim, t);
+                    }
+                }
+            }
+        }
+    }
+    // convergence with honest peers
+    for i in 0..npeers {
+        env.grow(&sim, i, u64::MAX / 2);
+    }
+    for (j, m) in blocks_q.drain(..) {
+        if env.peers[j].connected {
+            env.deliver_block(&mut sim, j, m, "true");
+        }
+    }
+    let rounds = sim.chain.blocks.len() / 2 + 10;
+    for _ in 0..rounds {
+        pump(&mut sim, &mut env, rng, interval);
+        env.fetch_tick(&mut sim);
+        for i in 0..npeers {
+            while env.peers[i].connected && env.answer_txs_proof(&mut sim, i) {}
+        }
+    }
+    let tips_now: Vec<usize> = env.peers.iter().map(|p| p.server.tip + 1).collect();
+    sim.step("Quiescent", json!({"tips": tips_now, "bans": 0}), |_| Ok(()));
+    let lines = sim.lines;
+    let panics = sim.panics.clone();
+    let out = std::mem::replace(&mut sim.out, Box::new(std::io::sink()));
+    (out, lines, panics)
+}
+
+/// C04: sync on branch A (optionally leaving matched blocks pending / partly downloaded), then all
+/// peers move to a heavier branch B forking `depth` blocks below A's tip (below, at and above
+/// last-N), with or without a restart in between; then sync to quiescence.
+fn fork_scenario(rng: &mut StdRng, sc: usize, out: Box<dyn std::io::Write>, kv: &HashMap<String, String>) -> (Box<dyn std::io::Write>, u64, Vec<String>) {
+    let pow = if rng.gen_bool(0.15) { "eaglesong" } else { "dummy" };
+    let last_n = *[2u64, 3, 5][..].get(rng.gen_range(0..3)).unwrap();
+    // as in production (interval 2000 >> last-N 100) a fork within last-N never crosses a FINALIZED
+    // check point: check points become final 2 intervals below the proved tip
+    let interval = last_n.max(3) + rng.gen_range(0..=2);
+    let npeers = rng.gen_range(1..=2usize);
+    let a_len = rng.gen_range((last_n as usize + 4)..=arg_u64(kv, "maxlen", 22) as usize);
+    let depth = rng.gen_range(1..=(last_n as usize + 2)).min(a_len - 2);
+    // build A, then B forking `depth` below A's tip and made heavier than A
+    let p = ChainParams { pow: pow.to_owned(), epoch_len: (3, 8), vary_difficulty: false };
+    let scripts = gen::default_scripts();
+    let mut chain = SimChain::new(pow, &scripts);
+    let mut tg = TxGen::new(scripts.len(), 3);
+    let a_tip = gen::extend_with_txs(&mut chain, 0, a_len, &p, rng, &mut tg);
+    let fork_at = chain.ancestor_at(a_tip, (a_len - depth) as u64).unwrap();
+    let b_tip = gen::extend_with_txs(&mut chain, fork_at, depth + rng.gen_range(1..=3), &p, rng, &mut tg);
+    let cfg = Config { last_n, max_outbound: npeers as u32, interval, blocks_in_transit: rng.gen_range(1..=4) };
+    let mut sim: Sim = new_sim(chain, cfg, npeers, out, &format!("fork-{}", sc), vec!["peersync", "filter"]);
+    let tips: Vec<(usize, usize)> = (0..npeers).map(|_| (a_tip, a_tip)).collect();
+    let mut env = Env::new(&sim, &tips);
+    for ep in env.peers.iter_mut() {
+        ep.server.filters_batch = rng.gen_range(1..=5);
+        ep.server.hashes_batch = rng.gen_range(2..=8);
+        ep.server.cp_batch = rng.gen_range(2..=6);
+    }
+    sim.reset(json!({"mode": "fork", "depth": depth, "lastN": last_n}));
+    let nscripts = sim.chain.scripts.len();
+    let mut list = Vec::new();
+    for sid in 0..nscripts {
+        if rng.gen_bool(0.7) {
+            list.push((sid, rng.gen_bool(0.2), rng.gen_range(0..=2)));
+        }
+    }
+    if list.is_empty() {
+        list.push((0, false, 0));
+    }
+    env.set_scripts(&mut sim, "all", &list);
+    // phase 1: sync on A; stop after a random number of rounds (mid-sync) or fully
+    let full = rng.gen_bool(0.6);
+    let rounds = if full { a_len / 2 + 8 } else { rng.gen_range(2..=6) };
+    for _ in 0..rounds {
+        pump(&mut sim, &mut env, rng, interval);
+    }
+    if !full || rng.gen_bool(0.3) {
+        // leave requests unanswered / blocks partly downloaded: a few fine-grained steps
+        for _ in 0..rng.gen_range(0..6) {
+            let i = rng.gen_range(0..npeers);
+            match rng.gen_range(0..4) {
+                0 => env.filter_tick(&mut sim, 0, true),
+                1 => {
+                    env.answer_filter(&mut sim, i, interval);
+                }
+                2 => {
+                    env.answer_blocks_proof(&mut sim, i);
+                }
+                _ => env.idle_tick(&mut sim),
+            }
+        }
+    }
+    if rng.gen_bool(0.4) {
+        env.restart(&mut sim);
+    }
+    // phase 2: everybody is on B now
+    for ep in env.peers.iter_mut() {
+        ep.leaf = b_tip;
+        ep.server.tip = b_tip;
+    }
+    sim.inbox.clear();
+    let rounds2 = sim.chain.blocks.len() / 2 + 10;
+    for _ in 0..rounds2 {
+        pump(&mut sim, &mut env, rng, interval);
+        if !sim.panics.is_empty() {
+            break; // the documented long-fork abort ends the process
+        }
+    }
+    let tips_now: Vec<usize> = env.peers.iter().map(|p| p.server.tip + 1).collect();
+    if sim.panics.is_empty() {
+        sim.step("Quiescent", json!({"tips": tips_now, "bans": 0}), |_| Ok(()));
+    }
+    let lines = sim.lines;
+    let panics = sim.panics.clone();
+    let out = std::mem::replace(&mut sim.out, Box::new(std::io::sink()));
+    (out, lines, panics)
+}
+
 pub fn run(kv: &HashMap<String, String>) -> i32 {
     let seed = arg_u64(kv, "seed", 1);
     let n = arg_u64(kv, "n", 5) as usize;
@@ -160,7 +444,9 @@ pub fn run(kv: &HashMap<String, String>) -> i32 {
     for sc in 0..n {
         let mut rng = StdRng::seed_from_u64(seed.wrapping_mul(1_000_003).wrapping_add(sc as u64));
         let (o, lines, p) = match mode.as_str() {
-            "sync" => sync_scenario(&mut rng, sc, out, kv),
+            "pump" => sync_scenario(&mut rng, sc, out, kv),
+            "sync" | "scripts" | "fetch" | "forkrand" => rand_scenario(&mut rng, sc, out, kv, if mode == "forkrand" { "fork" } else { &mode }),
+            "fork" => fork_scenario(&mut rng, sc, out, kv),
             _ => {
                 eprintln!("unknown mode {}", mode);
                 return 2;
